@@ -146,7 +146,10 @@ EvExecRet ==
              /\ IF a.cerr THEN E.f = "cancel"
                 ELSE /\ E.f = FClass(a.af)
                      /\ (a.af.t = "none" /\ E.v >= 0) => E.v = Final(a.acc, ver[a.key])
-                     /\ a.af.t = "cycle" => PathOf(E) = a.af.p
+                     \* which cycle a query reports is subject to the unsynchronised output.Fatal write of
+                     \* waitUntilDone (a data race in the code): only the class is matched, and the path
+                     \* the real execution reports must be a real cycle of the query graph
+                     /\ E.f = "cycle" => IsClosedWalk(cfg, PathOf(E))
              /\ ExecRet(i)
   /\ Same /\ Consume
 
@@ -154,6 +157,7 @@ EvClose ==
   /\ Is("close") /\ Known(E.t)
   /\ LET i == tmap[E.t] a == acts[i] IN
      /\ a.key = E.k /\ E.gen = Gen(a.run) /\ E.f = FClass(a.rf)
+     /\ E.f = "cycle" => IsClosedWalk(cfg, PathOf(E))
      /\ (E.f = "none" /\ E.v >= 0) => E.v = a.rv
      /\ Close(i, FALSE)
   /\ Same /\ Consume
